@@ -297,6 +297,64 @@ Definition run_maximal (p : prog) (n : nat) (sch : list (nat * fout)) : option (
   | None => None
   end.
 
+(* coarse observation, for the C implementation: its dict operations are indistinguishable from
+   outside (kind 1), its lock operations are not observable (no label), the cache is only
+   observable at the end, by behaviour (a later call returns the cached value or runs f) *)
+Definition coarse_label (t : nat) (k : Z) : list Z :=
+  (if (k =? 3) || (k =? 8) then [] else [Z.of_nat t; if (k =? 2) || (k =? 7) then 1 else k])%Z.
+
+Fixpoint run_steps_coarse (p : prog) (s : state) (sch : list (nat * fout)) (acc : list Z) : option (state * list Z) :=
+  match sch with
+  | [] => Some (s, acc)
+  | (t, o) :: rest =>
+      match vstep p s t o with
+      | None => None
+      | Some s' => run_steps_coarse p s' rest (acc ++ coarse_label t (kind_code p s t o))
+      end
+  end.
+
+Definition finals_coarse (s : state) (n : nat) : list Z :=
+  flat_map (fun t => outcome_code (pc (th s t)) ++ [Z.of_nat (nstart (th s t))]) (seq 0 n)
+  ++ (match cache s with Done r => [2; r] | _ => [1] end)%Z ++ [Z.of_nat (ndone s)].
+
+Definition run_coarse_maximal (p : prog) (n : nat) (sch : list (nat * fout)) : option (list Z) :=
+  match run_steps_coarse p init sch [] with
+  | Some (s, tr) => if any_enabled p s n then None else Some (tr ++ finals_coarse s n)
+  | None => None
+  end.
+
+(* compact case encoding for the harness (parsing long list literals and big numerals is what
+   costs time in Coq): a schedule is a list of chunks of at most 12 steps, a chunk being one number
+   with a leading 1 and one base-32 digit per step, digit = 3 * tid + o with o = 0 no outcome /
+   1 f returns 100 + tid / 2 f raises; an observation list (entries in [0, 1024)) is cut into
+   chunks of 5 entries, each one number in base 1024 with a leading 1. *)
+Fixpoint decode_chunk (fuel : nat) (code : N) : list (nat * fout) :=
+  match fuel with
+  | O => []
+  | S f =>
+      if (code <=? 1)%N then [] else
+      let d := N.to_nat (N.modulo code 32) in
+      let t := Nat.div d 3 in
+      (t, match Nat.modulo d 3 with 1 => FRet (100 + Z.of_nat t) | _ => FRaise end)
+        :: decode_chunk f (N.div code 32)
+  end.
+Definition decode_sched (chunks : list N) : list (nat * fout) := flat_map (decode_chunk 12) chunks.
+
+(* Observations are compared through two polynomial fingerprints computed here, inside Coq, on the
+   model's observation list (the harness computes the same two numbers from what the implementation
+   did): literals are what costs time in coqc, and a full list per case is ~80 numerals.  A
+   disagreement is re-evaluated in full by the harness (run_maximal printed). *)
+Definition fp (m b : N) (l : list Z) : N :=
+  fold_left (fun acc z => ((acc * b + Z.to_N z + 1) mod m)%N) l 7%N.
+
+Definition run_code (coarse : bool) (p : prog) (x : nat * list N) : option (N * N) :=
+  let '(n, chunks) := x in
+  match (if coarse then run_coarse_maximal p n (decode_sched chunks)
+         else run_maximal p n (decode_sched chunks)) with
+  | Some l => Some (fp 2305843009213693951 1000003 l, fp 2147483647 48271 l)
+  | None => None
+  end.
+
 (* number of maximal visible schedules of n threads where each f returns `rv t` or raises;
    the harness must have replayed exactly this many distinct ones *)
 Fixpoint count_max (p : prog) (n : nat) (rv : nat -> Z) (fuel : nat) (s : state) : N :=
